@@ -107,7 +107,7 @@ def block_depth(src: str) -> int:
 
 
 def outcome_key(o) -> tuple:
-    return ("ok", o.value) if o.ok else ("err", o.err_class)
+    return o.key()  # (memory addresses in printed objects are normalised there)
 
 
 def _deep(n: int, inner: str = "{{ 1 }}{{ 2 }}") -> str:
